@@ -17,8 +17,6 @@ package main
 //   tuple                              Tuple
 
 import (
-	"os"
-	"runtime/debug"
 	"fmt"
 	"go/types"
 	"sort"
@@ -243,10 +241,27 @@ func (e *Eng) bread(n *bnode, i *Term) *Term {
 			}
 		}
 		if hi-lo > 1024 {
-			if os.Getenv("SYMGO_DEBUG") != "" {
-				fmt.Fprintf(os.Stderr, "large table read: i=%s lo=%d hi=%d\n%s\n", i.strDepth(4), lo, hi, debug.Stack())
+			// large concrete table read at a symbolic index: mirror the table in an SMT array
+			// (created once per path, every cell asserted) and read from that
+			if e.path == nil || len(n.conc) > 1<<16 {
+				panic(pathEnd{kind: endUnsupported, msg: "symbolic index into a large concrete table"})
 			}
-			panic(pathEnd{kind: endUnsupported, msg: "symbolic index into a large concrete table"})
+			if e.path.tableArr == nil {
+				e.path.tableArr = map[*bnode]*Term{}
+			}
+			arr, ok := e.path.tableArr[n]
+			if !ok {
+				e.path.uniq++
+				arr = tb.ArrVar(fmt.Sprintf("table!%d", e.path.uniq))
+				e.path.tableArr[n] = arr
+				var cells []*Term
+				for j, b := range n.conc {
+					cells = append(cells, tb.Eq(tb.Select(arr, tb.Const(64, uint64(j))), tb.Const(8, uint64(b))))
+				}
+				e.solver.Assert(tb.And(cells...))
+				e.path.npc++
+			}
+			return tb.Ite(tb.Ult(i, tb.Const(64, uint64(len(n.conc)))), tb.Select(arr, i), tb.Const(8, 0))
 		}
 		k := readKey{n, i.ID}
 		if r, ok := e.readMemo[k]; ok {
